@@ -16,6 +16,7 @@ def run(ctx, col, tier):
     from ..rules import namesfwd as _namesfwd
     _namesfwd.run(ctx, col, ('swcgeom.core.tree', 'swcgeom.core.path', 'swcgeom.core.branch', 'swcgeom.core.node', 'swcgeom.core.compartment', 'swcgeom.core.branch_tree',
                              'swcgeom.core.tree_utils', 'swcgeom.core.tree_utils_impl', 'swcgeom.core.swc'), floor=2)
+    _namesfwd.run_allcols(ctx, col, ('swcgeom.core.path.Path', 'swcgeom.core.branch.Branch', 'swcgeom.core.compartment.Compartment', 'swcgeom.core.node.Node', 'swcgeom.core.tree.Tree.Node', 'swcgeom.core.tree.Tree.Path', 'swcgeom.core.tree.Tree.Branch'))
     from ..rules import idxguard as _idxguard
     _idxguard.run(ctx, col, ('swcgeom.core.tree', 'swcgeom.core.path', 'swcgeom.core.branch', 'swcgeom.core.node', 'swcgeom.core.compartment'), floor=1)
     from ..rules import smalllints as _small_own
